@@ -550,8 +550,10 @@ func init() {
 		Plan:           func(tier string, seed int64) int { return tierN(tier, 30, 2000) },
 		ThoroughRounds: 5,
 		Run:            c04Run,
-		RequiredStats:  func(string) []string { return []string{"rpcs", "metadata_keys_checked", "stalled_send_header_cases", "rpcs_with_deadline_and_metadata"} },
-		Assumptions:    []string{"no two keys of one set are equal up to letter case (their merge order is unspecified)"},
+		RequiredStats: func(string) []string {
+			return []string{"rpcs", "metadata_keys_checked", "stalled_send_header_cases", "rpcs_with_deadline_and_metadata"}
+		},
+		Assumptions: []string{"no two keys of one set are equal up to letter case (their merge order is unspecified)"},
 	})
 }
 
